@@ -244,5 +244,5 @@ Proof.
   induction items as [|a items IH]; [by destruct (decide _)|].
   rewrite (filter_cons (fun a => home (keyof a) = i)). rewrite (filter_cons (fun a => keyof a = k) a items).
   destruct (decide (home (keyof a) = i)) as [Hh|Hh], (decide (keyof a = k)) as [Hk|Hk]; subst;
-    rewrite ?filter_cons; repeat (destruct (decide _); try done); rewrite IH; repeat (destruct (decide _); try done).
+    rewrite ?filter_cons, ?IH; repeat case_decide; done || congruence.
 Qed.
